@@ -104,10 +104,49 @@ def check_register_crc(ctx, clsname, mod, n, poly, steps_expected):
     ctx.ob('C30.init', clsname + '.clear-value', ok, clears[0].loc if clears else None, 'clear must reload the all-ones remainder')
     steps = [a for a in drivers if a.rhs.op != 'const']
     found = {}
+
+    def mux_free(e):
+        """The expression with every Mux resolved, consistently per condition: a step that selects its data byte with a Mux
+        (one arm for the receive data, one for the transmit data) is one affine step per selection."""
+        conds = sorted({n.args[0].canon() for n in e.walk() if n.op == 'mux' and isinstance(n.args[0], E)})
+        if not conds:
+            return [(e, {})]
+        if len(conds) > 4:
+            raise AnalysisError('%s step selects its input through %d different Mux conditions' % (clsname, len(conds)))
+        import itertools
+        memo = None
+
+        def sub(x, pick):
+            if not isinstance(x, E):
+                return x
+            k = id(x)
+            if k in memo:
+                return memo[k]
+            if x.op == 'mux' and isinstance(x.args[0], E):
+                r = sub(x.args[1] if pick[x.args[0].canon()] else x.args[2], pick)
+            elif any(isinstance(y, E) for y in x.args):
+                na = tuple(sub(y, pick) for y in x.args)
+                r = x if all(p_ is q_ for p_, q_ in zip(na, x.args)) else E(x.op, na, w=x.w, val=x.val, label=x.label)
+            else:
+                r = x
+            memo[k] = r
+            return r
+        out = []
+        cexpr = {n.args[0].canon(): n.args[0] for n in e.walk() if n.op == 'mux' and isinstance(n.args[0], E)}
+        for bits in itertools.product((True, False), repeat=len(conds)):
+            memo = {}
+            pick = dict(zip(conds, bits))
+            out.append((sub(e, pick), {c: (cexpr[c], v) for c, v in pick.items()}))
+        return out
+    cases = []
     for a in steps:
-        rhs = a.rhs
-        if rhs.op == 'sig' and q.comb_def(ir, rhs.args[0].name) is not None:
-            rhs = q.comb_def(ir, rhs.args[0].name)
+        rhs0 = a.rhs
+        if rhs0.op == 'sig' and q.comb_def(ir, rhs0.args[0].name) is not None:
+            rhs0 = q.comb_def(ir, rhs0.args[0].name)
+        for r_, pick_ in mux_free(rhs0):
+            cases.append((a, r_, pick_))
+    ir.crc_step_cases = cases
+    for a, rhs, _pick in cases:
         data_sigs = sorted(rhs.sigs() - {X})
         ctx.need(len(data_sigs) == 1, '%s step reads exactly one data input (%s)' % (clsname, data_sigs))
         dname = data_sigs[0]
@@ -221,13 +260,26 @@ def run(ctx):
     ir16, st = check_register_crc(ctx, 'USBDataPacketCRC', 'usb2.packet', 16, 0x8005, [8, 8])
     ctx.need(st.get(8) and all(isinstance(a.lhs, E) and a.lhs.op == 'sig' for a in st[8]), 'byte updates of the USB2 CRC16 register')
     RUN = st[8][0].lhs.canon()                                  # the running CRC register (whatever it is called)
-    srcs = sorted(sorted(a.rhs.sigs() - {RUN})[0] for a in st.get(8, []))
-    ctx.ob('C30.data-input', 'USBDataPacketCRC.inputs', srcs == ['self.rx_data', 'self.tx_data'], None,
-           'the two byte updates consume rx_data (under rx_valid) and tx_data (under tx_valid): %s' % srcs)
-    for a in st.get(8, []):
-        d = sorted(a.rhs.sigs() - {RUN})[0]
-        v = d.replace('_data', '_valid')
-        ctx.ob('C30.data-input', 'USBDataPacketCRC.%s-valid' % d.split('.')[-1], q.has(a, v), a.loc, 'update with %s only under %s' % (d, v))
+    # which byte is absorbed, for every valuation of the two valid strobes (exact: last assignment wins, a Mux that selects
+    # the byte is resolved by the valuation): rx_data under rx_valid, else tx_data under tx_valid, else nothing
+    from ..fsm import holds, eval_bool, lit_atoms
+    clr_atoms = {x for a_ in ir16.drivers(RUN, exact=True) if a_.rhs.op == 'const' for x, p_ in q.atoms(a_) if p_}
+    for rxv in (False, True):
+        for txv in (False, True):
+            asg = {'self.rx_valid': rxv, 'self.tx_valid': txv}
+            asg.update({x: False for x in clr_atoms})
+            src, site = None, None
+            for a_, rhs_, pick_ in sorted(ir16.crc_step_cases, key=lambda t: t[0].order):
+                if not holds(a_.guard, asg):
+                    continue
+                if any(bool(eval_bool(ce, asg)) != v_ for ce, v_ in pick_.values()):
+                    continue
+                d_ = sorted(rhs_.sigs() - {RUN})
+                src, site = (d_[0] if len(d_) == 1 else tuple(d_)), a_
+            want_src = 'self.rx_data' if rxv else ('self.tx_data' if txv else None)
+            ctx.ob('C30.data-input', 'USBDataPacketCRC.byte-source[rx_valid=%d,tx_valid=%d]' % (rxv, txv), src == want_src,
+                   site.loc if site is not None else None,
+                   'with rx_valid=%d tx_valid=%d the running CRC must absorb %s, it absorbs %s' % (rxv, txv, want_src or 'nothing', src or 'nothing'))
     check_register_crc(ctx, 'HeaderPacketCRC', 'usb3.link.crc', 16, 0x100B, [32])
     ir32, st32 = check_register_crc(ctx, 'DataPacketPayloadCRC', 'usb3.link.crc', 32, 0x04C11DB7, [32, 24, 16, 8])
     sel = {32: 'self.advance_word', 24: 'self.advance_3B', 16: 'self.advance_2B', 8: 'self.advance_1B'}
